@@ -1,4 +1,9 @@
 import NipyVerif.Props.C07
+import NipyVerif.Props.C07Grid
+import NipyVerif.Props.C07Csv
+import NipyVerif.Props.C07Par
+import NipyVerif.Props.C07Names
+import NipyVerif.Props.C07Source
 #print axioms NipyVerif.C07.sampleCondition_eq
 #print axioms NipyVerif.C07.sample_superposition
 #print axioms NipyVerif.C07.sample_sum_of_single_events
@@ -16,3 +21,43 @@ import NipyVerif.Props.C07
 #print axioms NipyVerif.C07.names_match_kernels
 #print axioms NipyVerif.C07.dmtx_column_count
 #print axioms NipyVerif.C07.dmtx_constant_last
+#print axioms NipyVerif.C07.tr_of_uniform_run
+#print axioms NipyVerif.C07.hr_grid_step
+#print axioms NipyVerif.C07.hr_grid_length
+#print axioms NipyVerif.C07.hr_grid_contains_frametimes
+#print axioms NipyVerif.C07.n_pre_whole
+#print axioms NipyVerif.C07.hr_grid_covers_min_onset
+#print axioms NipyVerif.C07.resample_at_node
+#print axioms NipyVerif.C07.compute_regressor_rows
+#print axioms NipyVerif.C07.regressor_shift_whole_scans
+#print axioms NipyVerif.C07.compute_regressor_shift
+#print axioms NipyVerif.C07.regressor_rows_causal
+#print axioms NipyVerif.C07.zero_duration_offset
+#print axioms NipyVerif.C07.fir_event_row
+#print axioms NipyVerif.C07.fir_rows_from_frametimes
+#print axioms NipyVerif.C07.fir_event_unique_row
+#print axioms NipyVerif.C07.csv_parse_format
+#print axioms NipyVerif.C07.csv_names_roundtrip
+#print axioms NipyVerif.C07.csv_names_roundtrip_no_doublequote
+#print axioms NipyVerif.C07.csv_space_rows_roundtrip
+#print axioms NipyVerif.C07.load_write_conditions
+#print axioms NipyVerif.C07.read_session_ignores_other_sessions
+#print axioms NipyVerif.C07.unique_names_sorted
+#print axioms NipyVerif.C07.unique_names_nodup
+#print axioms NipyVerif.C07.mem_unique_names
+#print axioms NipyVerif.C07.fir_names_injective
+#print axioms NipyVerif.C07.derivative_ne_dispersion
+#print axioms NipyVerif.C07.regressor_names_nodup
+#print axioms NipyVerif.C07.drift_names_nodup
+#print axioms NipyVerif.C07.default_reg_names_nodup
+#print axioms NipyVerif.C07.default_reg_names_disjoint_drift
+#print axioms NipyVerif.C07.cond_columns_nodup_iff
+#print axioms NipyVerif.C07.dmtx_names_nodup_iff
+#print axioms NipyVerif.C07.dmtx_names_nodup_default
+#print axioms NipyVerif.C07.names_unique_flag
+#print axioms NipyVerif.C07.make_dmtx_columns_unique_iff
+#print axioms NipyVerif.C07.regressor_names_from_source
+#print axioms NipyVerif.C07.suffix_table_complete
+#print axioms NipyVerif.C07.name_formats_as_modelled
+#print axioms NipyVerif.C07.grid_source_as_modelled
+#print axioms NipyVerif.C07.drift_source_as_modelled
